@@ -3,9 +3,10 @@
 // compaction, out-of-order merge, reopen) build layouts with memtable rows, ordered and out-of-order files and several
 // segments per series (max-rows-per-segment = 8, 24 timestamps). At check points the harness issues, through the store-side reader the
 // planner would build (LogicalPlanBuilder series/measurement plan -> ChunkReader over shard.CreateCursor):
-//     SELECT f(x) FROM m WHERE <range> [AND <field filter>] GROUP BY [time(w),] host      f in count,sum,min,max,first,last
+//     SELECT f(x)[, g(y)[, h(z)]] FROM m WHERE <range> [AND <field filter>] GROUP BY [time(w),] host
+// (f,g,h in count,sum,min,max,first,last over mostly different fields; mean as the sum/count pair)
 // with and without the exact-statistics hint, and the paired plain select
-//     SELECT x FROM m WHERE <range> [AND <field filter>] GROUP BY host
+//     SELECT x FROM m WHERE <range> [AND <field filter>] GROUP BY host        (one per field)
 // Range ends are placed on / next to the time ranges of files and segments. DIRECT ORACLE: combining the partial results
 // the reader emits (what the executor's upper aggregation does: sum of counts and sums, min of mins, ...) must equal
 // the function applied to the rows of the paired plain select - whenever the hint is given, or a field filter or a time
@@ -50,6 +51,9 @@ type PRow struct {
 
 // Agg: a combined aggregate of one group
 type Agg struct {
+	Col    int    `json:"col"`
+	Fn     string `json:"fn"`
+	Field  int    `json:"field"`
 	Group  string `json:"group"` // host[/bucket]
 	Null   bool   `json:"null"`
 	V      int64  `json:"v"`
@@ -62,8 +66,9 @@ type Check struct {
 	Op       int    `json:"op"`
 	SQL      string `json:"sql"`
 	Plain    string `json:"plain"`
-	Fn       string `json:"fn"`
-	Field    int    `json:"field"`
+	Fn       string `json:"fn"`    // first call (kept for single-call corpus cases)
+	Field    int    `json:"field"` // first call
+	Calls    []Call `json:"calls"`
 	Lo       int    `json:"lo"`
 	Hi       int    `json:"hi"`
 	Hint     bool   `json:"hint"`
@@ -77,7 +82,11 @@ type Check struct {
 	// SigChunkTime: groups (hosts) for which some file holds a chunk of >= 2 segments that the range enters after its
 	// first row (first) / leaves before its last row (last) - where FirstLastReader may report the chunk's time
 	SigChunkTime []string `json:"sig_chunk_time,omitempty"`
-	FailGroups   []string `json:"fail_groups,omitempty"`
+	// SigMemLast: "col:host" for last() calls on the shortcut path where the memtable holds, inside the range, a row
+	// carrying another selected field LATER than its last row carrying this call's field
+	SigMemLast []string `json:"sig_mem_last,omitempty"`
+	FailGroups []string `json:"fail_groups,omitempty"`
+	FailCols   []string `json:"fail_cols,omitempty"` // "col:group" of every failing result
 }
 
 type History struct {
@@ -91,6 +100,7 @@ type History struct {
 	OOO     int     `json:"ooo_files"`
 	MaxSegs int     `json:"max_segments"`
 	Crash   string  `json:"crash,omitempty"`
+	mem     map[[2]int]int // unflushed rows: (series,time) -> mask of fields written since the last flush / reopen
 	Fix     string  `json:"fix,omitempty"` // corpus cases: "field,lo,hi,fn" - every Q issues exactly this shortcut-path statement
 }
 
@@ -271,11 +281,51 @@ func pickRange(r *gen.Rand, files []tsdrv.File) (int, int) {
 	return a, b
 }
 
+// Call: one aggregate of a statement
+type Call struct {
+	Fn    string `json:"fn"`
+	Field int    `json:"field"`
+}
+
 func (h *History) query(sh *tsdrv.Shard, opi int, r *gen.Rand, files []tsdrv.File) {
-	f := r.Intn(4)
-	fn := gen.Pick(r, fns)
-	for !fnApplies(fn, f) {
-		fn = gen.Pick(r, fns)
+	// 1-3 aggregates, mostly over DIFFERENT fields (a column all-null in one container must not disturb the others)
+	ncall := 1
+	switch r.Intn(10) {
+	case 0, 1, 2, 3:
+		ncall = 2
+	case 4, 5:
+		ncall = 3
+	}
+	var calls []Call
+	used := map[int]bool{}
+	for len(calls) < ncall {
+		f := r.Intn(4)
+		if used[f] && r.Chance(3, 4) {
+			continue
+		}
+		fn := gen.Pick(r, fns)
+		for !fnApplies(fn, f) {
+			fn = gen.Pick(r, fns)
+		}
+		dupCall := false
+		for _, cl := range calls {
+			if cl.Fn == fn && cl.Field == f {
+				dupCall = true // the statement compiler folds identical calls into one column
+			}
+		}
+		if dupCall {
+			continue
+		}
+		used[f] = true
+		calls = append(calls, Call{fn, f})
+	}
+	if r.Chance(1, 10) { // mean(x) = sum(x)/count(x): the planner ships exactly this pair
+		f := r.Intn(2)
+		calls = []Call{{"sum", f}, {"count", f}}
+		if r.Bool() {
+			g := (f + 1 + r.Intn(3)) % 4
+			calls = append(calls, Call{"count", g})
+		}
 	}
 	lo, hi := pickRange(r, files)
 	fixed := false
@@ -283,14 +333,28 @@ func (h *History) query(sh *tsdrv.Shard, opi int, r *gen.Rand, files []tsdrv.Fil
 	if h.Fix != "" {
 		fx = h.Fix
 	}
-	if fx != "" { // corpus cases / debugging aid: field,lo,hi,fn on the shortcut path
+	if strings.HasPrefix(fx, "MULTI:") { // corpus: MULTI:fn:field,fn:field;lo;hi  (shortcut path)
+		parts := strings.Split(strings.TrimPrefix(fx, "MULTI:"), ";")
+		if len(parts) == 3 {
+			calls = nil
+			for _, cs := range strings.Split(parts[0], ",") {
+				kv := strings.Split(cs, ":")
+				fi, _ := strconv.Atoi(kv[1])
+				calls = append(calls, Call{kv[0], fi})
+			}
+			lo, _ = strconv.Atoi(parts[1])
+			hi, _ = strconv.Atoi(parts[2])
+			fixed = true
+		}
+	} else if fx != "" { // corpus cases / debugging aid: field,lo,hi,fn on the shortcut path
 		var a, b, cc int
 		var name string
 		if n, _ := fmt.Sscanf(fx, "%d,%d,%d,%s", &a, &b, &cc, &name); n == 4 {
-			f, lo, hi, fn, fixed = a, b, cc, name, true
+			lo, hi, fixed = b, cc, true
+			calls = []Call{{name, a}}
 		}
 	}
-	c := Check{Op: opi, Fn: fn, Field: f, Lo: lo, Hi: hi}
+	c := Check{Op: opi, Fn: calls[0].Fn, Field: calls[0].Field, Calls: calls, Lo: lo, Hi: hi}
 	mode := r.Intn(8)
 	if fixed {
 		mode = 7
@@ -303,7 +367,6 @@ func (h *History) query(sh *tsdrv.Shard, opi int, r *gen.Rand, files []tsdrv.Fil
 	case 3:
 		c.Bucket = gen.Pick(r, []int{2, 3, 5})
 	}
-	name := tsdrv.FieldNames[f]
 	where := fmt.Sprintf("time >= %d AND time <= %d", tsdrv.TimeOf(lo), tsdrv.TimeOf(hi))
 	if c.Filter {
 		ff := r.Intn(2) // filter on fa_int or fb_float
@@ -317,15 +380,46 @@ func (h *History) query(sh *tsdrv.Shard, opi int, r *gen.Rand, files []tsdrv.Fil
 	if c.Bucket > 0 {
 		grp = fmt.Sprintf("time(%ds), host", c.Bucket)
 	}
-	c.SQL = fmt.Sprintf("SELECT %s%s(%s) FROM m WHERE %s GROUP BY %s", hint, fn, name, where, grp)
-	c.Plain = fmt.Sprintf("SELECT %s FROM m WHERE %s GROUP BY host", name, where)
-
-	if fn == "first" || fn == "last" {
-		for _, fl := range files {
-			for _, sr := range fl.Series {
-				if sr.Segments >= 2 && ((fn == "first" && sr.MinT < lo && lo <= sr.MaxT) || (fn == "last" && sr.MinT <= hi && hi < sr.MaxT)) {
-					c.SigChunkTime = append(c.SigChunkTime, "h"+strconv.Itoa(sr.S))
+	sel := ""
+	for i, cl := range calls {
+		if i > 0 {
+			sel += ", "
+		}
+		sel += fmt.Sprintf("%s(%s)", cl.Fn, tsdrv.FieldNames[cl.Field])
+	}
+	c.SQL = fmt.Sprintf("SELECT %s%s FROM m WHERE %s GROUP BY %s", hint, sel, where, grp)
+	for _, cl := range calls {
+		if cl.Fn == "first" || cl.Fn == "last" {
+			for _, fl := range files {
+				for _, sr := range fl.Series {
+					if sr.Segments >= 2 && ((cl.Fn == "first" && sr.MinT < lo && lo <= sr.MaxT) || (cl.Fn == "last" && sr.MinT <= hi && hi < sr.MaxT)) {
+						c.SigChunkTime = append(c.SigChunkTime, "h"+strconv.Itoa(sr.S))
+					}
 				}
+			}
+		}
+	}
+	for ci, cl := range calls {
+		if cl.Fn != "last" || len(calls) < 2 {
+			continue
+		}
+		for sr := 0; sr < h.NSer; sr++ {
+			lastOwn, lastOther := -1, -1
+			for k, mask := range h.mem {
+				if k[0] != sr || k[1] < lo || k[1] > hi {
+					continue
+				}
+				if mask&(1<<uint(cl.Field)) != 0 && k[1] > lastOwn {
+					lastOwn = k[1]
+				}
+				for cj, other := range calls {
+					if cj != ci && other.Field != cl.Field && mask&(1<<uint(other.Field)) != 0 && mask&(1<<uint(cl.Field)) == 0 && k[1] > lastOther {
+						lastOther = k[1]
+					}
+				}
+			}
+			if lastOwn >= 0 && lastOther > lastOwn {
+				c.SigMemLast = append(c.SigMemLast, fmt.Sprintf("%d:h%d", ci, sr))
 			}
 		}
 	}
@@ -338,165 +432,181 @@ func (h *History) query(sh *tsdrv.Shard, opi int, r *gen.Rand, files []tsdrv.Fil
 	if info != nil {
 		c.PreAgg = info.MatchPreAgg && !c.Hint
 	}
-	plainRows, _, err := sh.Select(c.Plain)
-	if err != nil {
-		c.Fail = "plain query error: " + err.Error()
-		h.Checks = append(h.Checks, c)
-		return
-	}
-	// rows of the plain select per group
-	rowsOf := map[string][]PRow{}
-	for _, pr := range plainRows {
-		if len(pr.Cells) != 1 || pr.Cells[0].Nil {
-			continue
-		}
-		t := tsdrv.IdxOf(pr.Time)
-		g := hostOfTags(pr.Tags)
-		if c.Bucket > 0 {
-			g += "/" + strconv.Itoa(bucketOf(t, c.Bucket))
-		}
-		rowsOf[g] = append(rowsOf[g], PRow{T: t, V: cellCode(f, pr.Cells[0])})
-	}
-	// combine the partial results per group
-	type part struct {
-		v int64
-		t int
-	}
-	parts := map[string][]part{}
-	for _, ar := range aggRows {
-		if len(ar.Cells) != 1 {
-			c.Fail = fmt.Sprintf("aggregate row with %d cells", len(ar.Cells))
-			break
-		}
-		cell := ar.Cells[0]
-		if cell.Nil {
-			continue
-		}
-		g := hostOfTags(ar.Tags)
-		t := tsdrv.IdxOf(cell.Time)
-		if c.Bucket > 0 {
-			g += "/" + strconv.Itoa(bucketOf(tsdrv.IdxOf(ar.Time), c.Bucket))
-		}
-		if os.Getenv("VERIF_DEBUG") != "" && fn != "count" {
-			fmt.Fprintf(os.Stderr, "DBG %s group=%s S=%q rowtime=%d celltime=%d hasct=%v\n", c.SQL, g, cell.S, tsdrv.IdxOf(ar.Time), t, cell.HasCT)
-		}
-		var v int64
-		if fn == "count" {
-			v = cell.I
-		} else {
-			v = cellCode(f, cell)
-		}
-		parts[g] = append(parts[g], part{v, t})
-	}
-	groups := map[string]bool{}
-	for g := range rowsOf {
-		groups[g] = true
-	}
-	for g := range parts {
-		groups[g] = true
-	}
-	var names []string
-	for g := range groups {
-		names = append(names, g)
-	}
-	sort.Strings(names)
 	c.Compared = c.Hint || c.Filter || c.Bucket > 0 || !h.Dup
 	if !c.Compared {
 		c.Skipped = "no hint/filter/bucket and the history has a cross-generation duplicate (excluded by the statement)"
 	}
-	for _, g := range names {
-		a := Agg{Group: g, Rows: rowsOf[g], T: -1}
-		ps := parts[g]
-		if len(ps) == 0 {
-			a.Null = true
-		} else {
-			a.V, a.T = ps[0].v, ps[0].t
-			for _, p := range ps[1:] {
+	// the paired plain select, one per field: rows per group
+	rowsByField := map[int]map[string][]PRow{}
+	for _, cl := range calls {
+		if _, ok := rowsByField[cl.Field]; ok {
+			continue
+		}
+		plain := fmt.Sprintf("SELECT %s FROM m WHERE %s GROUP BY host", tsdrv.FieldNames[cl.Field], where)
+		if c.Plain != "" {
+			c.Plain += " ; "
+		}
+		c.Plain += plain
+		plainRows, _, err := sh.Select(plain)
+		if err != nil {
+			c.Fail = "plain query error: " + err.Error()
+			h.Checks = append(h.Checks, c)
+			return
+		}
+		m := map[string][]PRow{}
+		for _, pr := range plainRows {
+			if len(pr.Cells) != 1 || pr.Cells[0].Nil {
+				continue
+			}
+			t := tsdrv.IdxOf(pr.Time)
+			g := hostOfTags(pr.Tags)
+			if c.Bucket > 0 {
+				g += "/" + strconv.Itoa(bucketOf(t, c.Bucket))
+			}
+			m[g] = append(m[g], PRow{T: t, V: cellCode(cl.Field, pr.Cells[0])})
+		}
+		rowsByField[cl.Field] = m
+	}
+	type part struct {
+		v int64
+		t int
+	}
+	for ci, cl := range calls {
+		fn, f := cl.Fn, cl.Field
+		rowsOf := rowsByField[f]
+		parts := map[string][]part{}
+		for _, ar := range aggRows {
+			if len(ar.Cells) != len(calls) {
+				c.Fail = fmt.Sprintf("aggregate row with %d cells", len(ar.Cells))
+				break
+			}
+			cell := ar.Cells[ci]
+			if cell.Nil {
+				continue
+			}
+			g := hostOfTags(ar.Tags)
+			t := tsdrv.IdxOf(cell.Time)
+			if c.Bucket > 0 {
+				g += "/" + strconv.Itoa(bucketOf(tsdrv.IdxOf(ar.Time), c.Bucket))
+			}
+			if os.Getenv("VERIF_DEBUG") != "" && fn != "count" {
+				fmt.Fprintf(os.Stderr, "DBG %s col=%d group=%s S=%q I=%d rowtime=%d celltime=%d hasct=%v\n", c.SQL, ci, g, cell.S, cell.I, tsdrv.IdxOf(ar.Time), t, cell.HasCT)
+			}
+			var v int64
+			if fn == "count" {
+				v = cell.I
+			} else {
+				v = cellCode(f, cell)
+			}
+			parts[g] = append(parts[g], part{v, t})
+		}
+		groups := map[string]bool{}
+		for g := range rowsOf {
+			groups[g] = true
+		}
+		for g := range parts {
+			groups[g] = true
+		}
+		var names []string
+		for g := range groups {
+			names = append(names, g)
+		}
+		sort.Strings(names)
+		for _, g := range names {
+			a := Agg{Group: g, Rows: rowsOf[g], T: -1, Col: ci, Fn: fn, Field: f}
+			ps := parts[g]
+			if len(ps) == 0 {
+				a.Null = true
+			} else {
+				a.V, a.T = ps[0].v, ps[0].t
+				for _, p := range ps[1:] {
+					switch fn {
+					case "count", "sum":
+						a.V += p.v
+					case "min":
+						if p.v < a.V {
+							a.V, a.T = p.v, p.t
+						}
+					case "max":
+						if p.v > a.V {
+							a.V, a.T = p.v, p.t
+						}
+					case "first":
+						if p.t < a.T {
+							a.V, a.T = p.v, p.t
+						}
+					case "last":
+						if p.t > a.T {
+							a.V, a.T = p.v, p.t
+						}
+					}
+				}
+			}
+			// DIRECT ORACLE: the function over the rows the plain select returns for this field
+			rows := rowsOf[g]
+			a.WantOK = true
+			if c.Compared && !strings.HasSuffix(c.Fail, "cells") {
+				var want int64
+				wantNull := len(rows) == 0
+				ok := true
 				switch fn {
-				case "count", "sum":
-					a.V += p.v
-				case "min":
-					if p.v < a.V {
-						a.V, a.T = p.v, p.t
+				case "count":
+					want = int64(len(rows))
+					if wantNull { // count over no rows: no value at all, or 0
+						ok = a.Null || a.V == 0
+					} else {
+						ok = !a.Null && a.V == want
 					}
-				case "max":
-					if p.v > a.V {
-						a.V, a.T = p.v, p.t
+				case "sum":
+					for _, x := range rows {
+						want += x.V
 					}
-				case "first":
-					if p.t < a.T {
-						a.V, a.T = p.v, p.t
+					if wantNull {
+						ok = a.Null
+					} else {
+						ok = !a.Null && a.V == want
 					}
-				case "last":
-					if p.t > a.T {
-						a.V, a.T = p.v, p.t
+				case "min", "max":
+					if wantNull {
+						ok = a.Null
+					} else {
+						want = rows[0].V
+						for _, x := range rows {
+							if (fn == "min" && x.V < want) || (fn == "max" && x.V > want) {
+								want = x.V
+							}
+						}
+						ok = !a.Null && a.V == want
+					}
+				case "first", "last":
+					if wantNull {
+						ok = a.Null
+					} else {
+						bt := rows[0].T
+						for _, x := range rows {
+							if (fn == "first" && x.T < bt) || (fn == "last" && x.T > bt) {
+								bt = x.T
+							}
+						}
+						ok = false
+						for _, x := range rows {
+							if x.T == bt && !a.Null && x.V == a.V {
+								ok = true
+							}
+						}
 					}
 				}
+				if !ok {
+					a.WantOK = false
+					if c.Fail == "" {
+						c.Fail = fmt.Sprintf("group %s: %s(%s) returned %v (null=%v) but the rows of the plain select give a different value", g, fn, tsdrv.FieldNames[f], a.V, a.Null)
+					}
+					c.FailGroups = append(c.FailGroups, g)
+					c.FailCols = append(c.FailCols, fmt.Sprintf("%d:%s", ci, g))
+				}
 			}
+			c.Groups = append(c.Groups, a)
 		}
-		// DIRECT ORACLE: the function over the rows of the plain select
-		rows := rowsOf[g]
-		a.WantOK = true
-		if c.Compared && !strings.HasSuffix(c.Fail, "cells") {
-			var want int64
-			wantNull := len(rows) == 0
-			ok := true
-			switch fn {
-			case "count":
-				want = int64(len(rows))
-				if wantNull { // count over no rows: no row at all, or 0
-					ok = a.Null || a.V == 0
-				} else {
-					ok = !a.Null && a.V == want
-				}
-			case "sum":
-				for _, x := range rows {
-					want += x.V
-				}
-				if wantNull {
-					ok = a.Null
-				} else {
-					ok = !a.Null && a.V == want
-				}
-			case "min", "max":
-				if wantNull {
-					ok = a.Null
-				} else {
-					want = rows[0].V
-					for _, x := range rows {
-						if (fn == "min" && x.V < want) || (fn == "max" && x.V > want) {
-							want = x.V
-						}
-					}
-					ok = !a.Null && a.V == want
-				}
-			case "first", "last":
-				if wantNull {
-					ok = a.Null
-				} else {
-					bt := rows[0].T
-					for _, x := range rows {
-						if (fn == "first" && x.T < bt) || (fn == "last" && x.T > bt) {
-							bt = x.T
-						}
-					}
-					ok = false
-					for _, x := range rows {
-						if x.T == bt && !a.Null && x.V == a.V {
-							ok = true
-						}
-					}
-				}
-			}
-			if !ok {
-				a.WantOK = false
-				if c.Fail == "" {
-					c.Fail = fmt.Sprintf("group %s: %s returned %v (null=%v) but the rows of the plain select give a different value", g, fn, a.V, a.Null)
-				}
-				c.FailGroups = append(c.FailGroups, g)
-			}
-		}
-		c.Groups = append(c.Groups, a)
 	}
 	h.Checks = append(h.Checks, c)
 }
@@ -527,6 +637,7 @@ func runHistoryFix(idx int, work string, nser int, nodup bool, ops []Op, qr *gen
 	defer func() { _ = sh.Close() }()
 	gen_ := 0
 	firstGen := map[[2]int]int{}
+	h.mem = map[[2]int]int{}
 	for i := range ops {
 		op := &ops[i]
 		switch op.K {
@@ -538,6 +649,9 @@ func runHistoryFix(idx int, work string, nser int, nodup bool, ops []Op, qr *gen
 				} else if !ok {
 					firstGen[k] = gen_
 				}
+				for _, fv := range r.F {
+					h.mem[k] |= 1 << uint(fv.F)
+				}
 			}
 			if err := sh.Write(op.Rows); err != nil {
 				h.Crash = "write: " + err.Error()
@@ -546,6 +660,7 @@ func runHistoryFix(idx int, work string, nser int, nodup bool, ops []Op, qr *gen
 		case "F":
 			sh.V.ForceFlush()
 			gen_++
+			h.mem = map[[2]int]int{}
 		case "LC":
 			sh.V.SetBackground(true, false)
 			_ = sh.V.LevelCompact(uint16(op.Level))
@@ -564,6 +679,7 @@ func runHistoryFix(idx int, work string, nser int, nodup bool, ops []Op, qr *gen
 				return
 			}
 			gen_++
+			h.mem = map[[2]int]int{}
 		case "Q":
 			files, err := sh.Files()
 			if err != nil {
